@@ -33,7 +33,7 @@ ASSUMPTIONS = [
 ]
 LEVEL_SCOPE = ("Decides the listed clauses for every order type (piece) over real arithmetic, reporting only definite disagreements; floating-point "
                "rounding and the clauses listed as undecided are not decided.")
-FLOORS = {"K1": 20, "A1": 20, "A1b": 36, "A2": 19, "A3": 19, "D1": 20, "D2": 50, "M1": 26, "V1": 20, "V8": 19}
+FLOORS = {"V10": 2, "K1": 20, "A1": 20, "A1b": 36, "A2": 19, "A3": 19, "D1": 20, "D2": 50, "M1": 26, "V1": 20, "V8": 19}
 
 # positive-by-definition parameters (valid parameterisations): widths and standard deviations; slopes are non-zero
 POSITIVE = {"width", "standard_deviation", "standard_deviation_a", "standard_deviation_b"}
@@ -53,6 +53,10 @@ def shape_params(c: ClassInfo) -> list[str]:
 
 
 def run(check: Check) -> None:
+    from .common import numpy_pitfalls
+
+    if not numpy_pitfalls(check, "V10", {"fuzzylite/term.py"}):
+        return  # the kernels are not the elementwise expressions the interpreters assume
     from . import c02
 
     p = check.program
